@@ -243,7 +243,7 @@ def replay(rs):
                         worst, where = g, "duty of heat_consumer %s: %r vs reported %r" % (ix, want, r.qext_w)
                     md = _mode(net.heat_consumer, ix)
                     sp = net.heat_consumer.loc[ix]
-                    checks = []
+                    checks = [("reported deltat_k vs t_in - t_outlet", r.deltat_k, t_in - r.t_outlet_k)]
                     if md in ("MF_DT", "MF_TR", "QE_MF"):
                         checks.append(("mdot", r.mdot_from_kg_per_s, sp.controlled_mdot_kg_per_s))
                     if md in ("QE_MF",) or (mode == "bidirectional" and md in ("QE_DT", "QE_TR")):
